@@ -207,7 +207,22 @@ def directed_pairs(rng) -> list[dict]:
     boom, _ = G.m_boom(rng)
     if_src = "@DEC\ndef dt(x: FLOAT[4], flag: BOOL):\n    if flag:\n        tmp = op.Neg(x)\n        acc = op.Abs(x)\n        b = op.Mul(x, 2.0)\n        k2 = op.Add(x, x)\n    else:\n        tmp = op.Abs(x)\n        acc = op.Neg(x)\n        b = op.Mul(x, 3.0)\n        k2 = op.Sub(x, x)\n    return op.Add(op.Add(tmp, acc), op.Add(b, k2))\n"
     M = lambda op, text, **kw: {"k": "model", "op": op, "model": text, **kw}  # noqa: E731
+    md = {"k": "model", "op": "rewrite", "rules": "multi_domain", "domains": ["com.microsoft", "custom.ext", "third.dom"], "preimported": [],
+          "model": H18 + "agraph (float[4] x) => (float[4] y)\n{\n  y = Softsign (x)\n}\n"}
+    af = G.m_as_function(__import__("random").Random(7))[0]
+    sq13 = '<ir_version: 7, opset_import: ["" : 13]>\nagraph (float[3] x) => (float[3] y)\n<float[1,3] k = {1,2,3}, int64[1] ax = {0}>\n{\n  c = Squeeze (k, ax)\n  y = Mul (x, c)\n}\n'
+    sq11 = '<ir_version: 7, opset_import: ["" : 11]>\nagraph (float[3] x) => (float[3] y)\n<float[1,3] k = {1,2,3}>\n{\n  c = Squeeze <axes = [0]> (k)\n  y = Mul (x, c)\n}\n'
+    ca = {"k": "script", "name": "dca", "src": "@DEC\ndef dca(x: FLOAT[3]):\n    y = x + 1.0\n    return y\n"}
+    ca2 = {"k": "script", "name": "dck", "src": "@DEC\ndef dck(x: FLOAT[3]):\n    k = 2.0\n    return x * k\n"}
+    cb = {"k": "script", "name": "dcb", "src": "@DEC\ndef dcb(const: INT64[3], x: FLOAT[3]):\n    return x + const\n"}
+    cb2 = {"k": "script", "name": "dcb2", "src": "@DEC\ndef dcb2(k: INT64[3], x: FLOAT[3]):\n    return op.Mul(x, k)\n"}
     pairs = [
+        {"tag": "C14-N2:witness replacement introducing three new domains across hash seeds", "history": [], "target": md},
+        {"tag": "as_function:three custom domains across hash seeds and after a rewrite", "history": [md], "target": af},
+        {"tag": "fold:Squeeze@13 then Squeeze@11 (version-sensitive op, one process)", "history": [M("optimize", sq13), M("fold", sq13)], "target": M("optimize", sq11)},
+        {"tag": "fold:Squeeze@11 then Squeeze@13", "history": [M("fold", sq11)], "target": M("fold", sq13)},
+        {"tag": "translate:identifier constant in one script, tensor in the next (const)", "history": [ca], "target": cb},
+        {"tag": "translate:identifier constant in one script, tensor in the next (k)", "history": [ca2, ca], "target": cb2},
         {"tag": "stash:ReshapeReshape fail-after-write then ok", "history": [M("rewrite", rr_fail), M("rewrite", rr_az)], "target": M("rewrite", rr_ok)},
         {"tag": "stash:ReshapeReshape ok then ok(other shape)", "history": [M("rewrite", rr_ok), M("optimize", rr_az)], "target": M("optimize", rr_ok2)},
         {"tag": "stash:ReshapeReshape ok then allowzero early success", "history": [M("rewrite", rr_ok)], "target": M("rewrite", rr_az)},
@@ -258,6 +273,7 @@ class Checker:
         self.tie_failures: list[tuple[dict, str]] = []
         self.d15_hits: list[tuple[dict, str]] = []
         self.n1_hits: list[tuple[dict, str]] = []
+        self.n2_hits: list[tuple[dict, str]] = []
         self.events: Counter = Counter()
         self.names: dict = {}
         self.ctrls: dict = {}
@@ -306,6 +322,17 @@ class Checker:
                 self.stats["target_raises_when_fresh"] += 1
             for s, dg in fresh.items():
                 if dg != base and not shared_fresh:
+                    t = pr["target"]
+                    if t.get("rules") == "multi_domain":
+                        ra, rb = d["fresh"][base_seed]["results"][-1], d["fresh"][s]["results"][-1]
+                        new = [dm for dm in dict.fromkeys(t["domains"]) if dm not in t.get("preimported", [])]
+                        # predicate of C14-N2: >= 2 NEW domains, and the two results are equal up to the ORDER of opset_import
+                        if len(new) >= 2 and ra.get("digest_sorted_imports") == rb.get("digest_sorted_imports"):
+                            self.n2_hits.append((
+                                {"kind": "seeds", "target": t, "history": [], "seed_a": base_seed, "seed_b": s, "tag": pr["tag"]},
+                                f"rewrite whose replacement introduces the new domains {new}: opset_import order {ra.get('opset_imports')} under PYTHONHASHSEED={base_seed}, "
+                                f"{rb.get('opset_imports')} under {s}; serialized bytes differ ({base} / {dg})"))
+                            break
                     self.prop_failures.append((
                         {"kind": "seeds", "target": pr["target"], "history": [], "seed_a": base_seed, "seed_b": s, "tag": pr["tag"]},
                         f"result of the target differs between fresh processes with PYTHONHASHSEED={base_seed} ({base}) and {s} ({dg}) [{pr['tag']}]",
@@ -374,6 +401,20 @@ class Checker:
                     self.prop_failures.append((case, f"Opset cache across subclasses: Opset18() / Opset('',18) observations {res.get('subclass')}"))
                 if res["fields"] != [op["domain"], op["version"]] or not res["same_instance"]:
                     self.prop_failures.append((case, f"Opset({op['domain']!r},{op['version']}) returned an object with fields {res['fields']}"))
+            elif op["k"] == "model" and op.get("rules") == "multi_domain" and not res.get("err"):
+                nd = lambda d_: d_ or "~"  # noqa: E731
+                existing = ";".join(f"{nd(dm)}={v}" for dm, v in [["", 18]] + [[dm, 1] for dm in op.get("preimported", [])])
+                exp = ";".join(f"{nd(dm)}={v}" for dm, v in res["opset_imports"])
+                srt = 1  # the model is the repaired code (630be50); bare set iteration is a regression, never followed
+                self.model_lines.append((f"imports {srt} {existing} {csvs(res['set_iter'])}", exp, case))
+                new = [dm for dm in op["domains"] if dm not in op.get("preimported", [])]
+                self.stats[f"multi_domain_new_{min(len(new), 4)}"] += 1
+                self.stats["multi_domain_set_iteration_unsorted"] += int(res["set_iter"] != sorted(res["set_iter"]))
+            elif op["k"] == "model" and op.get("rules") == "as_function" and not res.get("err"):
+                self.stats["as_function_rewrites"] += 1
+                fi = res.get("function_imports") or []
+                if not fi or len(fi[0]) < 3:
+                    self.tie_failures.append((case, f"as_function case did not produce a function with three custom-domain imports: {fi}"))
             elif op["k"] == "model" and op.get("op") == "fold" and not res.get("err"):
                 self.stats["fold_modified" if res.get("modified") else "fold_unmodified"] += 1
         for k, v in (rep.get("events") or {}).items():
@@ -741,6 +782,16 @@ def main(run: core.Run) -> None:
         else:
             chk.prop_failures.append((case, what))
     chk.stats["known_C14-N1"] = len(chk.n1_hits)
+    for case, what in chk.n2_hits[:1]:
+        if "C14-N2" in findings:
+            run.known("C14-N2", what)
+        else:
+            chk.prop_failures.append((case, what))
+    chk.stats["known_C14-N2"] = len(chk.n2_hits)
+    if not rows["converter"].get("opsetImportsSorted") and "C14-N2" not in findings and not chk.prop_failures:
+        run.violation({"broken": "rewriter._rewrite_rule._update_opset_imports iterates the used_opsets set unsorted"},
+                      "regression of C14-N2: _update_opset_imports iterates TapeBuilder.used_opsets (a set) in hash order, "
+                      "but no generated rewrite showed a seed-dependent result", no_input=True)
     if chk.prop_failures:
         chk.prop_failures.sort(key=lambda p: (len(p[0].get("history", [])), len(json.dumps(p[0]))))
         case, what = chk.prop_failures[0]
